@@ -43,6 +43,10 @@ declarations:
 - decl: int f19(double x, int a, int off = 0, int stride = 1)
 - decl: int f25(const std::string & s)
 - decl: int f25(bool b)
+- decl: int f31(bool flag)
+- decl: int f31(int n)
+- decl: int f32(int n, bool flag)
+- decl: int f32(int n, int m)
 - decl: double f27(double x, int n = 1)
 - decl: int f27(const std::string & s, int n = 1)
 - decl: int f30(int a, const std::string & s)
@@ -87,6 +91,10 @@ bool f18(bool flag);
 int f19(double x, int a, int off = 0, int stride = 1);
 int f25(const std::string &s);
 int f25(bool b);
+int f31(bool flag);
+int f31(int n);
+int f32(int n, bool flag);
+int f32(int n, int m);
 double f27(double x, int n = 1);
 int f27(const std::string &s, int n = 1);
 int f30(int a, const std::string &s);
@@ -116,6 +124,10 @@ int f17(double x, int a, bool b) { IN("f17(double,int,bool)"); vt_dbl(x); vt_int
 bool f18(bool flag) { IN("f18(bool)"); vt_bool(flag); vt_end(); bool rv = !flag; OUT("f18(bool)"); vt_bool(rv); vt_end(); return rv; }
 int f19(double x, int a, int off, int stride) { IN("f19(double,int,int,int)"); vt_dbl(x); vt_int(a); vt_int(off); vt_int(stride); vt_end(); int rv = (int)(x * 4) + a * 10 + off * 100 + stride * 1000; OUT("f19(double,int,int,int)"); vt_int(rv); vt_end(); return rv; }
 int f25(const std::string &s) { IN("f25(const std::string&)"); vt_str(s.c_str(), (long)s.size()); vt_end(); int rv = 500 + (int)s.size(); OUT("f25(const std::string&)"); vt_int(rv); vt_end(); return rv; }
+int f31(bool flag) { IN("f31(bool)"); vt_bool(flag); vt_end(); int rv = flag ? 3101 : 3100; OUT("f31(bool)"); vt_int(rv); vt_end(); return rv; }
+int f31(int n) { IN("f31(int)"); vt_int(n); vt_end(); int rv = 3200 + n; OUT("f31(int)"); vt_int(rv); vt_end(); return rv; }
+int f32(int n, bool flag) { IN("f32(int,bool)"); vt_int(n); vt_bool(flag); vt_end(); int rv = n + (flag ? 3301 : 3300); OUT("f32(int,bool)"); vt_int(rv); vt_end(); return rv; }
+int f32(int n, int m) { IN("f32(int,int)"); vt_int(n); vt_int(m); vt_end(); int rv = 3400 + n * 10 + m; OUT("f32(int,int)"); vt_int(rv); vt_end(); return rv; }
 int f25(bool b) { IN("f25(bool)"); vt_bool(b); vt_end(); int rv = b ? 601 : 600; OUT("f25(bool)"); vt_int(rv); vt_end(); return rv; }
 double f27(double x, int n) { IN("f27(double,int)"); vt_dbl(x); vt_int(n); vt_end(); double rv = x * n + 0.25; OUT("f27(double,int)"); vt_dbl(rv); vt_end(); return rv; }
 int f27(const std::string &s, int n) { IN("f27(const std::string&,int)"); vt_str(s.c_str(), (long)s.size()); vt_int(n); vt_end(); int rv = 700 + (int)s.size() * n; OUT("f27(const std::string&,int)"); vt_int(rv); vt_end(); return rv; }
@@ -267,6 +279,10 @@ FUNCS = [
     ("f18", "module", 0, [("f18(bool)", ["bool"], "bool", 0)]),
     ("f19", "module", 0, [("f19(double,int,int,int)", ["dbl", "int", "int", "int"], "int", 2)]),
     ("f25", "module", 0, [("f25(const std::string&)", ["str"], "int", 0), ("f25(bool)", ["bool"], "int", 0)]),
+    # a boolean and an integer candidate at the same position: the wrapper's local variable has to keep the type the
+    # branch was chosen for, or the C++ compiler resolves the call to the other overload
+    ("f31", "module", 0, [("f31(bool)", ["bool"], "int", 0), ("f31(int)", ["int"], "int", 0)]),
+    ("f32", "module", 0, [("f32(int,bool)", ["int", "bool"], "int", 0), ("f32(int,int)", ["int", "int"], "int", 0)]),
     # overloads with different result types, each with a default argument (the variants are visited interleaved)
     ("f27", "module", 0, [("f27(double,int)", ["dbl", "int"], "dbl", 1), ("f27(const std::string&,int)", ["str", "int"], "int", 1)]),
     # three candidates of one arity whose argument types are covered position by position by the others
